@@ -38,6 +38,7 @@ Script(sc, o, st) ==
     [] sc = "setDeep" -> [o EXCEPT !.dw = st.w]
     [] sc = "append"  -> [o EXCEPT !.items = Append(@, st.w)]
     [] sc = "meta"    -> [o EXCEPT !.annw = st.w, !.lab = 1]
+    [] sc = "metaMatch" -> IF st.m > 0 THEN [o EXCEPT !.annw = 1000 + st.m] ELSE o   \* an annotation on match steps only
     [] sc = "all"     -> [w |-> st.w, dw |-> st.w, items |-> Append(o.items, st.w), annw |-> st.w, lab |-> 1, nm |-> st.m]
     [] OTHER          -> o      \* "ident"
 
